@@ -154,8 +154,8 @@ class LoopLevelSetupAwaitOverlapPattern(RewritePattern):
         assert isinstance(op.in_state, BlockArgument)
         iter_arg_idx = op.in_state.index - 1  # -1 because the first block arg is the loop index
 
-        # also, if there is another launch between us and the loop start, abort
-        if any(isinstance(prev_op, accfg.LaunchOp) for prev_op in previous_ops_of(op)):
+        # also, if there is another launch between us and the loop start (also nested in a region), abort
+        if any(isinstance(inner_op, accfg.LaunchOp) for prev_op in previous_ops_of(op) for inner_op in prev_op.walk()):
             return
 
         # 1. We grab the first setup op inside the loop, with all dependencies
